@@ -245,6 +245,42 @@ pub fn c12(g: &mut Gen) {
             }
         }
     }
+    // the rule is chosen by the OUTPUT layer alone: a soft-max hidden layer in front of a linear / sigmoid output does not
+    // make it a classifier; a soft-max output of ONE unit still scores arg-max agreement (always 1)
+    {
+        let cd = ArchCfg { conv: false, deconv: false, pool: false, flat_input: Some(true), ..cfg.clone() };
+        for (oi, out_act) in ["linear", "sigmoid", "tanh"].iter().enumerate() {
+            let net = NetSpec { input: Shape::Single(4), builds: vec![Build::Layer(dense_spec(g, &cd, 4, 5, "softmax", true)), Build::Layer(dense_spec(g, &cd, 5, 3, out_act, true))],
+                skipacc: "add".into(), loopacc: "mean".into(), opt: None, obj: objs[oi].to_string(), clamp: None };
+            for n in [5usize, 70] {
+                let s = samples_tok(g, &net, &Sh::Flat(3), n);
+                g.push(format!("net {} validate {} {} {} 0", net.token(), n, s, hx(0.6)), Tol::Tight, &format!("validate/hidden-softmax/{}", out_act), true);
+            }
+        }
+        for obj in ["mse", "ce", "mae"] {
+            let net = NetSpec { input: Shape::Single(3), builds: vec![Build::Layer(dense_spec(g, &cd, 3, 4, "tanh", true)), Build::Layer(dense_spec(g, &cd, 4, 1, "softmax", true))],
+                skipacc: "add".into(), loopacc: "mean".into(), opt: None, obj: obj.to_string(), clamp: None };
+            let mut v = Vec::new();
+            for t in [0.0f32, 1.0, 0.5, -2.0, 0.0] {
+                let x = input_for(g, &net.input);
+                v.push(format!("{} {}", qt(&x), qt(&Tensor::single(vec![t]))));
+            }
+            g.push(format!("net {} validate 5 {} {} 0", net.token(), v.join(" "), hx(1e-6)), Tol::Tight, &format!("validate/one-unit-softmax/{}", obj), true);
+        }
+        // a prediction component that is NaN (inf - inf in the output layer) is not "within the tolerance"
+        let w = Tensor::double(vec![vec![1.0, 0.0], vec![0.0, 1.0], vec![3e38, -3e38]]);
+        let lin = InnerSpec::Dense { out: 3, act: "linear".into(), bias: false, dropout: None, w, b: None };
+        let net = NetSpec { input: Shape::Single(2), builds: vec![Build::Layer(lin)], skipacc: "add".into(), loopacc: "mean".into(), opt: None, obj: "mse".into(), clamp: None };
+        for n in [7usize, 70] {
+            let mut v = Vec::new();
+            for i in 0..n {
+                let x = if i % 7 == 0 { vec![2.0f32, 2.0] } else { vec![0.25 * (i % 5) as f32, -0.125 * (i % 3) as f32] };
+                let t = vec![x[0] + 0.05, x[1] + 0.5, 0.0];
+                v.push(format!("{} {}", qt(&Tensor::single(x)), qt(&Tensor::single(t))));
+            }
+            g.push(format!("net {} validate {} {} {} 0", net.token(), n, v.join(" "), hx(0.1)), Tol::Tight, "validate/nan-component", true);
+        }
+    }
     // validate / predict after a `learn` that stopped early (and one that ran to the end) on networks with dropout
     early_stopped_dropout_learn(g, "after-learn");
     // the tolerance rule at its boundary: identity networks (prediction = input exactly), differences exactly equal to,
@@ -458,7 +494,7 @@ pub fn c09(g: &mut Gen) {
     }
     // the dropout rate at its boundaries (1, one unit in the last place below 1, 0): outside training the rate of a layer
     // is never looked at, whatever the layer kind
-    for (ri, rate) in [1.0f32, f32::from_bits(1.0f32.to_bits() - 1), 0.0].iter().enumerate() {
+    for (ri, rate) in [1.0f32, f32::from_bits(1.0f32.to_bits() - 1), 0.0, f32::INFINITY, 2.0, f32::MAX].iter().enumerate() {
         for kind in 0..3usize {
             let c = ArchCfg { dropout: false, ..cfg.clone() };
             let (first, count): (InnerSpec, usize) = match kind {
@@ -506,6 +542,18 @@ pub fn c09(g: &mut Gen) {
         g.push(format!("net {} validate 3 {} {} 0", net.token(), s, hx(0.1)), Tol::Tight, &format!("spatial-kind{}/validate", kind), true);
         g.push(format!("net {} learn 3 {} 1 2 {} 5 2 2 0", net.token(), s, v), Tol::Loose, &format!("spatial-kind{}/learn-with-validation", kind), true);
         g.push(format!("net {} learn 3 {} 0 2 2 0", net.token(), s), Tol::Loose, &format!("spatial-kind{}/learn", kind), true);
+    }
+    // a feedback block WITHOUT any flag-carrying layer (max-pool only) next to a layer with dropout: "no flag set" is not
+    // "every flag set" — validate outside training leaves the network in inference mode
+    for (ri, rate) in [0.5f32, 1.0].iter().enumerate() {
+        let c = ArchCfg { dropout: false, ..cfg.clone() };
+        let conv = InnerSpec::Conv { filters: 1, act: "tanh".into(), k: (1, 1), s: (1, 1), p: (0, 0), d: (1, 1), dropout: Some(*rate), ks: vec![weights(g, &Shape::Triple(1, 1, 1), 0.8)] };
+        let builds = vec![Build::Layer(conv), Build::Feedback { inner: vec![InnerSpec::Maxpool { k: (1, 1), s: (1, 1) }], loops: 1 + ri, inskips: false, outskips: false, acc: "add".into() },
+            Build::Layer(dense_spec(g, &c, 9, 2, "tanh", true))];
+        let net = NetSpec { input: Shape::Triple(1, 3, 3), builds, skipacc: "add".into(), loopacc: "mean".into(), opt: Some(OptSpec::Sgd(0.05, None)), obj: "mse".into(), clamp: None };
+        let s = samples_tok(g, &net, &Sh::Flat(2), 3);
+        g.push(format!("net {} validate 3 {} {} 0", net.token(), s, hx(0.1)), Tol::Tight, "flagless-block/validate", true);
+        g.push(format!("net {} validate 3 {} {} 1", net.token(), s, hx(0.1)), Tol::Tight, "flagless-block/validate-while-training", true);
     }
     // feedback blocks whose inner layers carry dropout: one block per inner layer kind (dense, convolution,
     // deconvolution), two loops, a dense layer behind it; the block's own flag propagation must set and clear
@@ -1196,7 +1244,9 @@ pub fn c17(g: &mut Gen) {
                 for scale in [1e-6f32, 1e-9, 1.0] {
                     let x = input_for(g, &net.input);
                     let xs: Vec<f32> = crate::ops::tensor::flat_any(&x).iter().map(|v| v * scale).collect();
-                    g.push(format!("net {} predict {}", net.token(), qt(&Tensor::single(xs))), Tol::Exact, &format!("tiny-scale/k{}/{}", iters, acc), true);
+                    // (bit for bit only where nothing is summed: the order in which several repetitions are added up is free)
+                    let tol = if *acc == "overwrite" { Tol::Exact } else { Tol::Tight };
+                    g.push(format!("net {} predict {}", net.token(), qt(&Tensor::single(xs))), tol, &format!("tiny-scale/k{}/{}", iters, acc), true);
                 }
             }
         }
